@@ -262,3 +262,261 @@ theorem lex_total (text : List Char) : (lex text).2 ≠ some .outOfFuel :=
   lexAll_fuel text.length false 1 text (Nat.le_refl _)
 
 end Bp.Lex
+
+namespace Bp.Lex
+
+/-! ### line numbers count the line-feed characters -/
+theorem span_split (p : Char → Bool) : ∀ cs, (span p cs).1 ++ (span p cs).2 = cs ∧ ∀ c ∈ (span p cs).1, p c = true
+  | [] => by simp [span]
+  | c :: cs => by
+    have ih := span_split p cs
+    unfold span
+    by_cases h : p c = true
+    · simp only [h, if_true]
+      refine ⟨by simp [ih.1], ?_⟩
+      intro x hx
+      rcases List.mem_cons.mp hx with rfl | hx
+      · exact h
+      · exact ih.2 x hx
+    · simp [h]
+
+theorem dropPrefix_split : ∀ (p cs r : List Char), dropPrefix p cs = some r → cs = p ++ r
+  | [], cs, r, h => by simp [dropPrefix] at h; subst h; rfl
+  | _ :: _, [], r, h => by simp [dropPrefix] at h
+  | p :: ps, c :: cs, r, h => by
+    unfold dropPrefix at h
+    by_cases e : p = c
+    · simp only [e, if_true] at h; rw [dropPrefix_split ps cs r h, e]; rfl
+    · simp [e] at h
+
+theorem matchBody_split (cs : List Char) : ∀ b r, Lexer.matchBody cs = some (b, r) → cs = b ++ '"' :: r ∧ '\n' ∉ b := by
+  fun_induction Lexer.matchBody cs <;> intro b r h
+  case case1 => simp at h
+  case case2 => simp at h; obtain ⟨rfl, rfl⟩ := h; simp
+  case case3 => simp at h
+  case case4 c rest hnl b' r' hm ih =>
+    simp [hm] at h; obtain ⟨rfl, rfl⟩ := h
+    obtain ⟨e, hn⟩ := ih b' r' hm
+    refine ⟨by rw [e]; simp, ?_⟩
+    simp only [List.mem_cons, not_or]
+    exact ⟨by decide, fun e' => hnl e'.symm, hn⟩
+  case case5 => simp_all
+  case case6 => simp at h
+  case case7 => simp_all
+  case case8 c rest hq hb hnl b' r' hm ih =>
+    simp [hm] at h; obtain ⟨rfl, rfl⟩ := h
+    obtain ⟨e, hn⟩ := ih b' r' hm
+    refine ⟨by rw [e]; simp, ?_⟩
+    simp only [List.mem_cons, not_or]
+    exact ⟨fun e' => hnl e'.symm, hn⟩
+  case case9 => simp_all
+
+end Bp.Lex
+
+namespace Bp.Lex
+
+/-- what a token consumes: a line feed exactly for NEWLINE, no line feed otherwise -/
+def Consumed (k : Kind) (pre : List Char) : Prop := if k = .newline then pre = ['\n'] else '\n' ∉ pre
+
+theorem consumed_of_ne {k : Kind} {pre : List Char} (hk : k ≠ .newline) (h : '\n' ∉ pre) : Consumed k pre := by
+  simp [Consumed, hk, h]
+
+theorem wordRule_split (pw : Bool) (w : String) (cs r : List Char) (h : wordRule pw w cs = some r) : cs = w.toList ++ r := by
+  unfold wordRule at h
+  by_cases hp : pw = true
+  · simp [hp] at h
+  · simp only [hp, Bool.false_eq_true, if_false] at h
+    cases hd : dropPrefix w.toList cs with
+    | none => simp [hd] at h
+    | some rest =>
+      simp only [hd] at h
+      by_cases hb : boundaryAfter rest = true
+      · simp only [hb, if_true, Option.some.injEq] at h; subst h; exact dropPrefix_split _ _ _ hd
+      · simp [hb] at h
+
+theorem widthRule_split (pw : Bool) (w : String) (cs r : List Char) (n : Nat) (h : widthRule pw w cs = some (n, r)) :
+    ∃ ds, cs = w.toList ++ ds ++ r ∧ ∀ c ∈ ds, isDigit c = true := by
+  unfold widthRule at h
+  by_cases hp : pw = true
+  · simp [hp] at h
+  · simp only [hp, Bool.false_eq_true, if_false] at h
+    cases hd : dropPrefix w.toList cs with
+    | none => simp [hd] at h
+    | some rest =>
+      simp only [hd] at h
+      have hs := span_split isDigit rest
+      by_cases he : (span isDigit rest).1.isEmpty = true
+      · simp [he] at h
+      · simp only [he, Bool.false_eq_true, if_false] at h
+        by_cases hb : boundaryAfter (span isDigit rest).2 = true
+        · simp only [hb, if_true, Option.some.injEq, Prod.mk.injEq] at h
+          obtain ⟨_, rfl⟩ := h
+          refine ⟨(span isDigit rest).1, ?_, hs.2⟩
+          rw [dropPrefix_split _ _ _ hd, List.append_assoc, hs.1]
+        · simp [hb] at h
+
+theorem digit_ne_nl (c : Char) (h : isDigit c = true) : c ≠ '\n' := by
+  intro e; subst e; simp [isDigit] at h
+
+theorem next_split (pw : Bool) (line : Nat) (cs : List Char) (k : Kind) (rest : List Char)
+    (h : next pw line cs = .ok (k, rest)) : ∃ pre, cs = pre ++ rest ∧ Consumed k pre := by
+  unfold next at h
+  cases cs with
+  | nil => simp at h
+  | cons c tl =>
+    simp only at h
+    have word : ∀ (w : String) (r : List Char) (kk : Kind), kk ≠ .newline → '\n' ∉ w.toList → wordRule pw w (c :: tl) = some r →
+        ∃ pre, c :: tl = pre ++ r ∧ Consumed kk pre := by
+      intro w r kk hk hw hr
+      exact ⟨w.toList, wordRule_split pw w _ r hr, by simp [Consumed, hk, hw]⟩
+    have width : ∀ (w : String) (n : Nat) (r : List Char) (kk : Kind), kk ≠ .newline → '\n' ∉ w.toList → widthRule pw w (c :: tl) = some (n, r) →
+        ∃ pre, c :: tl = pre ++ r ∧ Consumed kk pre := by
+      intro w n r kk hk hw hr
+      obtain ⟨ds, e, hd⟩ := widthRule_split pw w _ r n hr
+      refine ⟨w.toList ++ ds, e, ?_⟩
+      simp only [Consumed, hk, if_false, List.mem_append, not_or]
+      exact ⟨hw, fun hm => digit_ne_nl _ (hd _ hm) rfl⟩
+    split at h
+    · rename_i hc
+      simp at h; obtain ⟨rfl, rfl⟩ := h
+      exact ⟨['\n'], by simp [hc], by simp [Consumed]⟩
+    rename_i hnl
+    have one : ∀ kk : Kind, kk ≠ .newline → ∃ pre, c :: tl = pre ++ tl ∧ Consumed kk pre :=
+      fun kk hk => ⟨[c], rfl, by simp [Consumed, hk]; exact fun e => hnl e.symm⟩
+    split at h
+    · simp at h; obtain ⟨rfl, rfl⟩ := h
+      have hs := span_split (fun x => !decide (x = '\n')) (c :: tl)
+      refine ⟨_, hs.1.symm, ?_⟩
+      simp only [Consumed, reduceCtorEq, if_false]
+      intro hm
+      have := hs.2 _ hm
+      simp at this
+    split at h
+    · rename_i r hr; simp at h; obtain ⟨rfl, rfl⟩ := h; exact word _ _ _ (by simp) (by decide) hr
+    split at h
+    · rename_i n r hr; simp at h; obtain ⟨rfl, rfl⟩ := h; exact width _ _ _ _ (by simp) (by decide) hr
+    split at h
+    · rename_i n r hr; simp at h; obtain ⟨rfl, rfl⟩ := h; exact width _ _ _ _ (by simp) (by decide) hr
+    split at h
+    · rename_i r hr; simp at h; obtain ⟨rfl, rfl⟩ := h; exact word _ _ _ (by simp) (by decide) hr
+    split at h
+    · rename_i hx
+      simp at h; obtain ⟨rfl, rfl⟩ := h
+      simp only [Bool.and_eq_true, decide_eq_true_eq] at hx
+      obtain ⟨⟨hc0, hx1⟩, _⟩ := hx
+      have hs := span_split isHex tl.tail
+      cases tl with
+      | nil => simp at hx1
+      | cons x tl' =>
+        simp at hx1; subst hx1; subst hc0
+        have hs' : (span isHex tl').1 ++ (span isHex tl').2 = tl' := by simpa using hs.1
+        refine ⟨'0' :: 'x' :: (span isHex tl').1, by simp [hs'], ?_⟩
+        simp only [Consumed, reduceCtorEq, if_false, List.mem_cons, not_or]
+        refine ⟨by decide, by decide, ?_⟩
+        intro hm
+        have := hs.2 _ (by simpa using hm)
+        simp [isHex, isDigit] at this
+    split at h
+    · rename_i hd
+      simp at h; obtain ⟨rfl, rfl⟩ := h
+      have hs := span_split isDigit (c :: tl)
+      refine ⟨_, hs.1.symm, ?_⟩
+      simp only [Consumed, reduceCtorEq, if_false]
+      exact fun hm => digit_ne_nl _ (hs.2 _ hm) rfl
+    split at h
+    · rename_i r hr; simp at h; obtain ⟨rfl, rfl⟩ := h; exact word _ _ _ (by simp) (by decide) hr
+    split at h
+    · rename_i r hr; simp at h; obtain ⟨rfl, rfl⟩ := h; exact word _ _ _ (by simp) (by decide) hr
+    split at h
+    · rename_i r hr; simp at h; obtain ⟨rfl, rfl⟩ := h; exact word _ _ _ (by simp) (by decide) hr
+    split at h
+    · rename_i r hr; simp at h; obtain ⟨rfl, rfl⟩ := h; exact word _ _ _ (by simp) (by decide) hr
+    split at h
+    · rename_i hi
+      simp at h; obtain ⟨rfl, rfl⟩ := h
+      have hs := span_split isIdChar (c :: tl)
+      refine ⟨_, hs.1.symm, consumed_of_ne ?_ ?_⟩
+      · split <;> simp
+      · intro hm
+        have := hs.2 _ hm
+        simp [isIdChar, isIdStart, isDigit] at this
+    split at h
+    · rename_i hq
+      split at h
+      · simp at h
+      · rename_i v r hl
+        simp at h; obtain ⟨rfl, rfl⟩ := h
+        unfold Lexer.lexString at hl
+        cases hm : Lexer.matchBody tl with
+        | none => simp [hm] at hl
+        | some br =>
+          obtain ⟨b, r'⟩ := br
+          simp only [hm, Option.some.injEq, Prod.mk.injEq] at hl
+          obtain ⟨_, rfl⟩ := hl
+          obtain ⟨e, hn⟩ := matchBody_split tl b r' hm
+          refine ⟨c :: b ++ ['"'], by rw [e]; simp, ?_⟩
+          simp only [Consumed, reduceCtorEq, if_false, List.mem_append, List.mem_cons, List.mem_singleton, not_or, List.not_mem_nil, or_false]
+          exact ⟨⟨fun e' => hnl e'.symm, hn⟩, by decide⟩
+      · simp at h
+    split at h
+    · simp at h; obtain ⟨rfl, rfl⟩ := h; exact one _ (by simp)
+    split at h
+    · simp at h; obtain ⟨rfl, rfl⟩ := h; exact one _ (by simp)
+    split at h
+    · simp at h; obtain ⟨rfl, rfl⟩ := h; exact one _ (by simp)
+    split at h
+    · simp at h; obtain ⟨rfl, rfl⟩ := h; exact one _ (by simp)
+    split at h
+    · simp at h; obtain ⟨rfl, rfl⟩ := h; exact one _ (by simp)
+    · simp at h
+
+end Bp.Lex
+
+namespace Bp.Lex
+
+def nlToks (ts : List Token) : Nat := (ts.filter (fun t => decide (t.kind = .newline))).length
+
+theorem consumed_count {k : Kind} {pre : List Char} (h : Consumed k pre) :
+    pre.count '\n' = if k = .newline then 1 else 0 := by
+  unfold Consumed at h
+  by_cases hk : k = .newline
+  · simp only [hk, if_true] at h ⊢; subst h; rfl
+  · simp only [hk, if_false] at h ⊢
+    exact List.count_eq_zero.mpr h
+
+/-- **every line feed is a NEWLINE token and vice versa**: in a text that lexes completely, the number of
+NEWLINE tokens is the number of line-feed characters (comments stop before theirs, strings contain none) -/
+theorem lexAll_count : ∀ (f : Nat) (pw : Bool) (line : Nat) (cs : List Char), cs.length ≤ f →
+    (lexAll f pw line cs).2 = none → nlToks (lexAll f pw line cs).1 = cs.count '\n'
+  | _, _, _, [], _, _ => by simp [lexAll, nlToks]
+  | 0, _, _, _ :: _, h, _ => by simp at h
+  | f+1, pw, line, c :: cs, h, he => by
+    have hcs : cs.length ≤ f := by simpa using h
+    unfold lexAll at he ⊢
+    by_cases hi : isIgnored c = true
+    · simp only [hi, if_true] at he ⊢
+      have hc : c ≠ '\n' := by
+        intro e; subst e; simp [isIgnored] at hi
+      rw [lexAll_count f false line cs hcs he]
+      simp [List.count_cons, hc]
+    · simp only [hi, Bool.false_eq_true, if_false] at he ⊢
+      cases hn : next pw line (c :: cs) with
+      | error e => simp [hn] at he
+      | ok kr =>
+        obtain ⟨k, rest⟩ := kr
+        simp only [hn] at he ⊢
+        cases hw : widthOk k with
+        | some sn => obtain ⟨sg, n⟩ := sn; simp [hw] at he
+        | none =>
+          simp only [hw] at he ⊢
+          obtain ⟨pre, hsplit, hcons⟩ := next_split pw line (c :: cs) k rest hn
+          have hlt := next_shorter pw line (c :: cs) k rest hn
+          have ih := lexAll_count f _ _ rest (by simp at hlt; omega) he
+          have hcount : (c :: cs).count '\n' = pre.count '\n' + rest.count '\n' := by rw [hsplit, List.count_append]
+          rw [hcount, consumed_count hcons]
+          simp only [nlToks, List.filter_cons] at ih ⊢
+          by_cases hk : k = .newline
+          · simp [hk] at ih ⊢; omega
+          · simp [hk] at ih ⊢; omega
+
+end Bp.Lex
